@@ -23,14 +23,16 @@ type seqChecker struct {
 	sess map[int]*Sess
 	gens map[int]int
 	// coverage
-	ncmd           int
-	nerr           int
-	typesHit       map[string]bool
-	typesSeen      map[mType]bool
-	execNonEmpty   int
-	watchedTouched int
-	wrongType      int
-	expiredHit     int
+	ncmd            int
+	nerr            int
+	typesHit        map[string]bool
+	typesSeen       map[mType]bool
+	execNonEmpty    int
+	flushWithOthers int
+	dbsSeen         map[int]bool
+	watchedTouched  int
+	wrongType       int
+	expiredHit      int
 }
 
 func newSeqChecker(p *Plan) Checker {
@@ -67,6 +69,14 @@ func (c *seqChecker) OnReply(w *World, op *Op) *Violation {
 	sBefore := s.Clone()
 	exp := c.m.Apply(s, now, argv)
 	c.ncmd++
+	if c.dbsSeen == nil {
+		c.dbsSeen = map[int]bool{}
+	}
+	for i := range before.dbs {
+		if len(before.dbs[i]) > 0 {
+			c.dbsSeen[i] = true
+		}
+	}
 	for _, a := range argv[1:] {
 		if o, ok := before.dbs[s.DB][a]; ok {
 			c.typesSeen[o.T] = true
@@ -77,6 +87,13 @@ func (c *seqChecker) OnReply(w *World, op *Op) *Violation {
 	}
 	if exp.Mode == exErr && exp.Class == "WRONGTYPE" {
 		c.wrongType++
+	}
+	if name := cmdLower(op); name == "flushdb" || name == "flushall" {
+		for cid, os := range c.sess {
+			if cid != op.Client && (name == "flushall" || os.DB == sBefore.DB) {
+				c.flushWithOthers++
+			}
+		}
 	}
 	if name := cmdLower(op); name == "exec" && len(sBefore.Queue) > 0 && !op.Reply.IsErr() {
 		c.execNonEmpty++
@@ -121,7 +138,7 @@ func (c *seqChecker) Extra() map[string]int {
 	for t := range c.typesSeen {
 		types[t] = true
 	}
-	return map[string]int{"types": len(types), "wrongtype": c.wrongType, "errors": c.nerr, "cmds": c.ncmd, "exec-nonempty": c.execNonEmpty, "watched-touched": c.watchedTouched}
+	return map[string]int{"types": len(types), "wrongtype": c.wrongType, "errors": c.nerr, "cmds": c.ncmd, "exec-nonempty": c.execNonEmpty, "watched-touched": c.watchedTouched, "flush-with-others": c.flushWithOthers, "dbs-used": c.dbsUsed()}
 }
 
 func fmtArgs(a []string) string {
@@ -457,3 +474,5 @@ func optionsReordered(name string, argv []string) bool {
 	}
 	return false
 }
+
+func (c *seqChecker) dbsUsed() int { return len(c.dbsSeen) }
